@@ -57,12 +57,18 @@ def w_short(n, nwrites):
 
 # ------------------------------------------------------------------------------------------------ W-order
 class RecLock:
-    """recording stand-in for threading.Lock during trace extraction"""
+    """recording stand-in for threading.Lock during trace extraction; with fail_timed=True an acquisition that carries a
+    timeout (or is non-blocking) fails, as it can when another thread holds the lock"""
 
-    def __init__(self, name, trace):
-        self.name, self.trace, self.held = name, trace, False
+    def __init__(self, name, trace, fail_timed=False):
+        self.name, self.trace, self.held, self.fail_timed = name, trace, False, fail_timed
 
     def acquire(self, *a, **k):
+        timed = (len(a) > 0 and a[0] is False) or (len(a) > 1 and a[1] is not None and a[1] >= 0) or \
+                (k.get("blocking") is False) or (k.get("timeout") is not None and k.get("timeout", -1) >= 0)
+        if timed and self.fail_timed:
+            self.trace.append(("acq-failed", self.name))
+            return False
         self.trace.append(("acq", self.name))
         self.held = True
         return True
@@ -174,6 +180,33 @@ class SchedLock:
 
     def __exit__(self, *a):
         self.release()
+
+
+def w_lockfail(sock_timeout):
+    """if the send path acquires its lock with a timeout and the acquisition FAILS (another sender holds it), the call must
+    neither write a byte nor release the lock it does not hold"""
+    quiet_logging()
+    trace = []
+    sock = TraceSock(trace)
+    sock.timeout = sock_timeout
+    ws = new_ws(sock, get_mask_key=KeySource([bytes(4)] * 4))
+    ws.sock_opt.timeout = sock_timeout
+    ws.lock = RecLock("L", trace, fail_timed=True)
+    try:
+        ws.send_binary(b"ab")
+    except (sx.Control, sx.ConcreteFailure, sx.ReplayMismatch):
+        raise
+    except Exception:
+        pass
+    if ("acq-failed", "L") in trace:
+        i = trace.index(("acq-failed", "L"))
+        sx.require(("w",) not in trace[i:], "a sender that failed to get the send lock writes nothing", timeout=str(sock_timeout))
+        sx.require(("rel", "L") not in trace[i:], "a sender that failed to get the send lock does not release it (it is held by another sender)",
+                   timeout=str(sock_timeout))
+        cover("timed-acquire")
+    else:
+        sx.require(("acq", "L") in trace and ("rel", "L") in trace, "send lock taken and released around the writes")
+        cover("untimed-acquire")
 
 
 def _extract_send_trace(payload, key, accept):
@@ -388,6 +421,9 @@ def obligations(tier):
                    bounds="t = 2..4 sender threads, each frame written in 1..3 pieces (symbolic split points), ALL interleavings of the extracted "
                           "lock/write events (no preemption bound)", must_cover=["order-send", "multi-write-trace"], budget_s=1800,
                    solver_timeout_ms=120000, kernel=["WebSocket.send_frame (send lock)"]),
+        Obligation("W-lockfail", w_lockfail, [dict(sock_timeout=t) for t in (None, 0.5, 5)],
+                   bounds="socket timeout None / 0.5 / 5; the send lock refuses every timed or non-blocking acquisition", must_cover=["untimed-acquire"],
+                   kernel=["WebSocket.send_frame (send lock)"]),
         Obligation("W-order-recv", w_order_recv, orecv,
                    bounds="t = 2..%d receiver threads in recv(), each message in 2 fragments; ALL interleavings of read-lock, frame-lock, transport-read "
                           "and reassembler events" % (4 if thorough else 3), must_cover=["order-recv"], budget_s=1800, solver_timeout_ms=120000,
